@@ -1005,6 +1005,20 @@ func (u *Unit) evalBuiltin(st *State, call *ast.CallExpr, name string) Val {
 		ch := u.eval(st, call.Args[0])
 		u.decls.declFun("chan_closed", []string{SInt}, SBool)
 		_ = ch
+		// `flag on_close <condition>`: what must hold whenever this function (or code inlined into it) closes a channel -
+		// a close is a signal to whoever waits on the channel, and the condition says what the waiter may then rely on
+		if rc := u.root().contract; rc != nil && rc.Flags["on_close"] != "" {
+			if e, err := parseSpecExpr(rc.Flags["on_close"]); err == nil {
+				env := u.invEnv(st, call.Pos())
+				if t, err := u.specBool(env, Clause{Text: rc.Flags["on_close"], Expr: e, Where: rc.Where}); err == nil {
+					u.oblige(st, "close-pre", u.seqLabel("close-pre", call.Pos()), t, call.Pos())
+				} else {
+					u.reject("contract error: %v", err)
+				}
+			} else {
+				u.reject("contract error: %v", err)
+			}
+		}
 		return Val{Kind: KTuple}
 	case "print", "println", "recover":
 		if name == "recover" {
